@@ -43,7 +43,14 @@ for mpath in seeds:
     verdict = lambda c: '-' if not c else {0: 'MISSED', 1: 'caught', 2: 'harness error'}.get(c.get('rc'), str(c.get('rc'))) + (' %.0fs' % c.get('wall_s', 0))
     sigs = (q.get('signatures') or t.get('signatures') or [])[:2]
     others = ['%s' % k.split(':')[0] for k, v in ch.items() if not k.startswith(pid) and v.get('rc') == 1]
-    desc = (m.get('summary', '') + ' / needs: ' + m.get('needs', '')).replace('|', '\\|').replace('\n', ' ')[:330]
+    hist = m.get('checks_history', [])
+    first = ''
+    if hist:
+        h0 = hist[0]
+        fq, ft = h0.get('%s:quick' % pid, {}), h0.get('%s:thorough' % pid, {})
+        first = ' **[first run: quick %s%s; check strengthened afterwards]**' % (
+            {0: 'MISSED', 1: 'caught'}.get(fq.get('rc'), '?'), (', thorough %s' % {0: 'MISSED', 1: 'caught'}.get(ft.get('rc'), '?')) if ft else '')
+    desc = (m.get('summary', '') + ' / needs: ' + m.get('needs', '')).replace('|', '\\|').replace('\n', ' ')[:330] + first
     out.append('| %s | %s | %s | %s | %s | %s%s |' % (name, pid, desc, verdict(q), verdict(t), '; '.join('`%s`' % s for s in sigs).replace('|', '\\|'),
                                                    (' (also caught by ' + ','.join(sorted(set(others))) + ')') if others else ''))
 out.append('')
